@@ -446,6 +446,10 @@ func init() {
 			}
 			return in.mkStr(strconv.FormatUint(t.k, base))
 		}
+		if in.cfg.Params["numstr"] == 1 {
+			// kept as an opaque numeric string that ParseUint inverts (trusted: strconv round-trip)
+			return Str{opaque: true, otag: "decimal", num: t}
+		}
 		return in.formatInt(t, false)
 	})
 	clone := func(in *Interp, fr *frame, fn *ssa.Function, args []Value) Value { return args[0] }
@@ -482,6 +486,15 @@ func init() {
 		bs := in.bytesOf(args[2])
 		return in.crc(prev, bs)
 	}
+	reg("context.WithTimeout", func(in *Interp, fr *frame, fn *ssa.Function, args []Value) Value {
+		return Tuple{args[0], &boundBuiltin{obj: &builtinObj{kind: "noop"}, method: "cancel"}}
+	})
+	reg("context.WithCancel", func(in *Interp, fr *frame, fn *ssa.Function, args []Value) Value {
+		return Tuple{args[0], &boundBuiltin{obj: &builtinObj{kind: "noop"}, method: "cancel"}}
+	})
+	reg("context.WithDeadline", func(in *Interp, fr *frame, fn *ssa.Function, args []Value) Value {
+		return Tuple{args[0], &boundBuiltin{obj: &builtinObj{kind: "noop"}, method: "cancel"}}
+	})
 	reg(rtPkg+".TempDir", func(in *Interp, fr *frame, fn *ssa.Function, args []Value) Value {
 		return in.mkStr("/veriftmp")
 	})
